@@ -26,6 +26,7 @@ func init() {
 			c04R11(c, "C04.R11")
 			c05R5(c, "C04.R10") // bucket/value clash: Get and the cursor report a nested bucket with a nil value
 			ruleRollbackUndoesFrees(c, "C04.R8") // a rolled-back DeleteBucket must not leave the bucket's pages released
+			c07R1(c, "C04.R15") // a node removed from the tree leaves the node cache with its page freed: a stale cache entry is rebalanced again and duplicates keys (seed C04d)
 			ruleNarrowingConfined(c, "C04.R13")
 			ruleArgumentGuardsExact(c, "C04.R14") // "return the documented error": exactly on the documented condition, never on valid arguments
 			ruleMovedInodesCarryChildren(c, "C04.R12") // "its own changes": dirty children of merged / collapsed nodes stay attached to the live tree
